@@ -979,13 +979,15 @@ def check(prog, rep):
                 pass    # existence test only
     for _round in range(2):
         for f, n, what in list(sites):
-            if use_of(n, f) == "handed-out" and f.cls is not None and f.name not in accessors:
+            if use_of(n, f) == "handed-out" and f.name not in accessors:
                 accessors.add(f.name)
                 for g in prog.functions.values():
-                    if g is deg:
+                    if g is deg or g is f:
                         continue
                     for c_ in walk_local(g.node):
-                        if isinstance(c_, ast.Call) and isinstance(c_.func, ast.Attribute) and c_.func.attr == f.name and not c_.args and sum(1 for k in prog.classes.values() if f.name in k.methods) == 1:
+                        if f.cls is not None and isinstance(c_, ast.Call) and isinstance(c_.func, ast.Attribute) and c_.func.attr == f.name and not c_.args and sum(1 for k in prog.classes.values() if f.name in k.methods) == 1:
+                            sites.append((g, c_, src(c_)[:40]))
+                        if f.cls is None and f.parent is None and isinstance(c_, ast.Call) and isinstance(c_.func, ast.Name) and c_.func.id == f.name and g.module is f.module:
                             sites.append((g, c_, src(c_)[:40]))
     n_raw = 0
     for f, n, what in sites:
